@@ -43,7 +43,10 @@ MANIFEST = {
             ' Further classes: valid texts using one spelling as a quoted'
             ' string and as a number or time pattern (must be accepted an'
             'd run), commands inside matrix blocks, token soups in braces'
-            ', long repetitions (20 s CPU bound per text).',
+            ', long repetitions (20 s CPU bound per text).'
+            ' Class H also holds sizeable valid texts: expressions nested'
+            ' up to 100 deep, loops and lists over up to 100 names, routi'
+            'nes of hundreds of commands.',
     'note': 'Trusted: the fault classifier (list of machinery frames), the '
             'construction of the rule-breaking mutants. A run stopped by the '
             'instruction budget is not a fault (infinite scripts are legal).',
